@@ -2101,7 +2101,7 @@ def explore(fn, max_paths=2000, timeout_ms=10000, linearize=True, maxcases=8, al
                         m = _model_inputs(c, c.model)
                     pr.obligations.append((name, str(r), m))
                 elif p:
-                    pr.obligations.append((name, 'unsat', None))
+                    pr.obligations.append((name, 'unsat-const', None))        # folded to True by term simplification / concrete on this path: no solver query
                 else:
                     # concretely false on this path: any model of the path condition is a counterexample
                     r = c.check(want_model=True, noslice=True)
